@@ -255,10 +255,13 @@ def subclass_arm_unit(prop):
 # ============================================================================ discard_init_args_on_class_path_change
 def di_setup(ctx):
     changed = ctx.choose(2, "class_path-changed") == 1
-    keys = ["a", "b"]
+    # one parameter is named like a Namespace method: the namespace stores it under the clash-marked name, the class parser knows it by its own name
+    MARK = "\u200b"
+    keys = ["a", "items"]
+    stored = {"a": "a", "items": MARK + "items"}
     fate = {k: ["accepted-by-the-new-class", "unknown-to-the-new-class", "known-but-ill-typed"][ctx.choose(3, f"{k}-in-new-class")] for k in keys}
-    init_store = {k: z3.Int(f"prev.init_args.{k}") for k in keys}
-    init_ns = Rec("Namespace", attrs={"store": init_store}, methods={"pop": lambda c, s_, a, k: s_.attrs["store"].pop(a[0])})
+    init_store = {stored[k]: z3.Int(f"prev.init_args.{k}") for k in keys}
+    init_ns = Rec("Namespace", attrs={"store": init_store}, methods={"pop": lambda c, s_, a, k: s_.attrs["store"].pop(a[0] if a[0] in s_.attrs["store"] else MARK + a[0])})
     init_ns.attrs["__dict__"] = Rec("dict-view", methods={"items": lambda c, s_, a, k: list(init_store.items())})
     prev_store = {"class_path": "pkg.Old", "init_args": init_ns}
     prev = Rec("Namespace", attrs={"store": prev_store}, methods={"__contains__": lambda c, s_, a, k: a[0] in prev_store, "__getitem__": lambda c, s_, a, k: prev_store[a[0]],
@@ -278,20 +281,22 @@ def di_setup(ctx):
     parser = Rec("ArgumentParser", attrs={"parser_mode": "yaml", "logger": Rec("Logger", methods={"debug": lambda c, s_, a, k: None})}, methods={"_check_value_key": check})
     sak = {"fail_untyped": True}
     action = Rec("ActionTypeHint", attrs={"sub_add_kwargs": sak, "logger": Rec("Logger", methods={"debug": lambda c, s_, a, k: None})})
-    calls = {"subclass_spec_as_namespace": lambda c, a, k: a[0], "_find_action": lambda c, a, k: (c.event("find", a[0], a[1]), None if fate[a[1]] == "unknown-to-the-new-class" else found[a[1]])[1],
+    calls = {"subclass_spec_as_namespace": lambda c, a, k: a[0],
+             "_find_action": lambda c, a, k: (c.event("find", a[0], a[1]), None if (a[1] not in fate or fate[a[1]] == "unknown-to-the-new-class") else found[a[1]])[1],
              "Namespace": lambda c, a, k: Rec("Namespace", attrs={"fresh": True}),
              "ActionTypeHint.get_class_parser": lambda c, a, k: (c.event("class-parser", a[0], a[1]), parser)[1]}
-    consts = {"ActionTypeHint": ClassRef("ActionTypeHint")}
+    consts = {"ActionTypeHint": ClassRef("ActionTypeHint"), "clash_mark": "\u200b"}
     cms = {"parser_context": (lambda c, a, k: open_cms.append(dict(k)), lambda c, t, e: (open_cms.pop(), False)[1])}
     return Setup(env={"parser_or_action": parser if given_as == "parser" else action, "prev_val": prev, "value": value}, calls=calls, consts=consts, cms=cms,
-                 data=dict(changed=changed, fate=fate, init_store=init_store, init_before=dict(init_store), keys=keys, given_as=given_as, parser=parser, sak=sak, found=found, open_cms=open_cms))
+                 inline={"del_clash_mark": "jsonargparse._namespace:del_clash_mark"},
+                 data=dict(stored=stored, changed=changed, fate=fate, init_store=init_store, init_before=dict(init_store), keys=keys, given_as=given_as, parser=parser, sak=sak, found=found, open_cms=open_cms))
 
 
 def di_post(ctx, st, result):
     d = st.data
     remaining = set(d["init_store"])
-    want = set(d["keys"]) if not d["changed"] else {k for k in d["keys"] if d["fate"][k] == "accepted-by-the-new-class"}
-    ctx.oblige("post", "on-a-class-change-exactly-the-previous-init_args-the-new-class-rejects-are-dropped;without-a-change-none", remaining == want, note=f"{d['fate']} changed={d['changed']} remaining={sorted(remaining)}")
+    want = {d["stored"][k] for k in d["keys"]} if not d["changed"] else {d["stored"][k] for k in d["keys"] if d["fate"][k] == "accepted-by-the-new-class"}
+    ctx.oblige("post", "on-a-class-change-exactly-the-previous-init_args-the-new-class-rejects-are-dropped(a parameter named like a Namespace method is judged like any other);without-a-change-none", remaining == want, note=f"{d['fate']} changed={d['changed']} remaining={sorted(remaining)}")
     ctx.oblige("post", "the-init_args-that-are-kept-keep-their-values", all(d["init_store"][k] is d["init_before"][k] for k in remaining))
     if d["changed"]:
         cp = [e for e in ctx.events if e[0] == "class-parser"]
@@ -302,7 +307,7 @@ def di_post(ctx, st, result):
         ck = [e for e in ctx.events if e[0] == "check"]
         known = [k for k in d["keys"] if d["fate"][k] != "unknown-to-the-new-class"]
         ctx.oblige("post", "each-previous-init_arg-the-new-class-knows-is-checked-by-the-new-class's-own-action,strictly(not leniently),on-its-own-value",
-                   [e[3] for e in ck] == known and all(e[1] is d["found"][e[3]] and e[2] is d["init_before"][e[3]] and isinstance(e[4], Rec) and e[4].attrs.get("fresh") and e[5] == [{"lenient_check": False, "load_value_mode": "yaml"}] for e in ck))
+                   [e[3] for e in ck] == known and all(e[3] in d["found"] and e[1] is d["found"][e[3]] and e[2] is d["init_before"][d["stored"][e[3]]] and isinstance(e[4], Rec) and e[4].attrs.get("fresh") and e[5] == [{"lenient_check": False, "load_value_mode": "yaml"}] for e in ck))
         ctx.oblige("post", "every-lookup-is-made-in-the-judging-parser", all(e[1] is d["parser"] for e in ctx.events if e[0] == "find") and not d["open_cms"])
 
 
